@@ -35,6 +35,9 @@ def run(rep, idx, tier):
     # C06.1 strobes
     for x in ("r_stb", "w_stb"):
         ds = c.drivers_of(c.parse(f"sub.{x}", env))
+        if not ds and c.overlapping(c.parse(f"sub.{x}", env)):
+            rep.unk("C06.1", site, f"sub.{x}", "driven bit by bit / slice by slice; the rule compares the signal as a whole and does not assemble it")
+            continue
         if not ds or {d.domain for d in ds} != {"comb"}:
             rep.bad("C06.1", site, f"sub.{x}", "must be driven combinationally (same cycle)", lines=[d.lineno for d in ds])
             continue
@@ -42,13 +45,17 @@ def run(rep, idx, tier):
                  [(r.case, f"self.bus.{x}")], env)
     # C06.2 address and write data (what the subordinate sees while it is selected)
     ds = c.drivers_of(c.parse("sub.addr", env))
-    if not ds or {d.domain for d in ds} != {"comb"}:
+    if not ds and c.overlapping(c.parse("sub.addr", env)):
+        rep.unk("C06.2", site, "sub.addr", "driven bit by bit / slice by slice; the rule compares the signal as a whole and does not assemble it")
+    elif not ds or {d.domain for d in ds} != {"comb"}:
         rep.bad("C06.2", site, "sub.addr", "must be driven combinationally")
     else:
         check_dl(rep, "C06.2", c, "sub.addr == bus.addr[:sub.addr_width] while selected", ds, "0",
                  [("1", "self.bus.addr[:sub.addr_width]")], env, assume=r.case)
     ds = c.drivers_of(c.parse("sub.w_data", env))
-    if not ds or {d.domain for d in ds} != {"comb"}:
+    if not ds and c.overlapping(c.parse("sub.w_data", env)):
+        rep.unk("C06.2", site, "sub.w_data", "driven bit by bit / slice by slice; the rule compares the signal as a whole and does not assemble it")
+    elif not ds or {d.domain for d in ds} != {"comb"}:
         rep.bad("C06.2", site, "sub.w_data", "must be driven combinationally")
     else:
         check_dl(rep, "C06.2", c, "sub.w_data == bus.w_data while selected", ds, "0", [("1", "self.bus.w_data")], env,
